@@ -478,6 +478,13 @@ add("refinement_stops_when_not_finer", (CAN, "        if get_number_of_partition
     note="refining never merges classes, so `not finer` is `equally fine`")
 add("canonical_labels_by_zip_range", (CAN, "    return {old: new for new, old in enumerate(old_labels_in_canonical_order)}", "    return dict(zip(old_labels_in_canonical_order, range(len(old_labels_in_canonical_order))))"), silent=True)
 
+add("v3000_optional_attrs_last_by_index", (V3, "        if val and (value := val.pop()) != 0:\n            atom_attrs[key] = value", "        if val and val[-1] != 0:\n            atom_attrs[key] = val[-1]"), silent=True)
+add("v3000_optional_attrs_last_by_index_zero_kept", (V3, "        if val and (value := val.pop()) != 0:\n            atom_attrs[key] = value", "        if val:\n            atom_attrs[key] = val[-1]"), fires={"R-ZERO"})
+add("v2000_entries_by_range_step", (V2, """    for i in range(number_of_entries):
+        tuple_start = tuple_offset + i * tuple_length""", """    for tuple_start in range(tuple_offset, tuple_offset + number_of_entries * tuple_length, tuple_length):"""), silent=True)
+add("v2000_entries_by_range_step_wrong_stride", (V2, """    for i in range(number_of_entries):
+        tuple_start = tuple_offset + i * tuple_length""", """    for tuple_start in range(tuple_offset, tuple_offset + number_of_entries * tuple_length, tuple_length - 1):"""), fires={"R-COLS"})
+
 # ---------------------------------------------------------------- spelling of the attribute names
 GA = "tucan/graph_attributes.py"
 add("attribute_names_respelled", [(GA, 'MASS = "mass"', 'MASS = "isotope_mass"'), (GA, 'CHG = "chg"', 'CHG = "formal_charge"'), (GA, 'BOND_TYPE = "bond_type"', 'BOND_TYPE = "order"'),
